@@ -431,6 +431,11 @@ def r16_4(ctx, f, rec, n, extras, schema, key_colon):
                 t = norm(flt)
                 if t in (f'{tv[0]} != "ds:Z:"', f"{tv[0]} != 'ds:Z:'", f"not {tv[0]}.startswith('ds:Z:')"):
                     continue
+                if t in (f"{tv[0]} != 'cg:Z:'", f"not {tv[0]}.startswith('cg:Z')", f"not {tv[0]}.startswith('cg:Z:')", f"{tv[0]} != 'cg:Z'"):
+                    after = tmpl.show(parts).split("filtered tag loop", 1)[-1]
+                    moved = "cg:Z:" in after
+                    ctx.violated("R16.4", f.where(loop), f"the writer leaves the CIGAR field out of the loop over the parsed fields (`if {t}`)" + (" and writes it after all of them: a record whose cg:Z is followed by other optional fields (`NM:i:0 cg:Z:10= AS:f:1`) comes out with its fields in another order" if moved else ": the field is dropped from the record"), key_of(f, f"tag-filter:{t}"))
+                    continue
                 if any(t in (v_, f"{v_} != ''", f"len({v_}) > 0", f"len({v_})", f"bool({v_})", f"{v_} is not None and {v_}") for v_ in vnames):
                     ctx.violated("R16.4", f.where(loop), f"the writer skips every field whose value is empty (`if {t}`): a well-formed field such as `co:Z:` with an empty string is not reproduced", key_of(f, f"tag-filter:{t}"))
                 else:
